@@ -68,39 +68,67 @@ func keyReport(b string) (report, bool) {
 type replyShape struct {
 	name  string
 	bytes string
+	// ann: the internal notifications the reply must produce by the protocol ("-" none, "?" unspecified)
+	ann string
 }
 
-func (h *H) replyShapes(rng *gen.Rng) []replyShape {
+func (h *H) replyShapes(rng *gen.Rng, mask uint32) []replyShape {
 	n := func(lo, hi int) int { return rng.Range(lo, hi) }
 	hx4 := func() string { return fmt.Sprintf("%04x", rng.Intn(65536)) }
+	bit := func(i uint) bool { return mask>>i&1 == 1 }
+	unless := func(known bool, ev string) string {
+		if known {
+			return "-"
+		}
+		return ev
+	}
+	mode := gen.Pick(rng, []int{2026, 2027, 2031, 2048, 1004, 7})
+	val := n(0, 4)
+	decrpmAnn := "-"
+	if cap, ok := map[int]string{2026: "synchronizedUpdates", 2027: "unicodeCoreCap", 2031: "notifyColorChange"}[mode]; ok {
+		switch val {
+		case 1, 2:
+			decrpmAnn = cap
+		case 3, 4:
+			decrpmAnn = "?" // permanently set / reset: not pinned down by the property
+		}
+	}
+	geomP := n(0, 3)
+	geomAnn := "-"
+	if geomP == 0 {
+		geomAnn = "capabilitySixel"
+	}
 	return []replyShape{
-		{"da1", "\x1b[?62;4;22c"},
-		{"da1", "\x1b[?62;22c"},
-		{"da1", "\x1b[?1;2;4c"},
-		{"decrpm", fmt.Sprintf("\x1b[?%d;%d$y", gen.Pick(rng, []int{2026, 2027, 2031, 2048, 1004, 7}), n(0, 4))},
-		{"size8", fmt.Sprintf("\x1b[8;%d;%dt", n(1, 300), n(1, 500))},
-		{"size4", fmt.Sprintf("\x1b[4;%d;%dt", n(1, 3000), n(1, 5000))},
-		{"inband", fmt.Sprintf("\x1b[48;%d;%d;%d;%dt", n(1, 300), n(1, 500), n(0, 3000), n(0, 5000))},
-		{"osc4", fmt.Sprintf("\x1b]4;%d;rgb:%s/%s/%s\x1b\\", n(0, 255), hx4(), hx4(), hx4())},
-		{"osc10", fmt.Sprintf("\x1b]10;rgb:%s/%s/%s\x1b\\", hx4(), hx4(), hx4())},
-		{"osc11", fmt.Sprintf("\x1b]11;rgb:%s/%s/%s\x07", hx4(), hx4(), hx4())},
-		{"osc52", "\x1b]52;c;" + gen.Pick(rng, []string{"aGVsbG8=", "", "5LiW55WM", "Zm9v", "YQ==", "!!!", "aGk"}) + "\x1b\\"},
-		{"osc176", "\x1b]176;" + gen.Pick(rng, []string{"app", "", "foot", "a;b"}) + "\x1b\\"},
-		{"xtgettcap", "\x1bP1+r524742=38\x1b\\"},
-		{"xtgettcap", "\x1bP1+r536D756C78=5C455B343A25703125646D\x1b\\"},
-		{"xtgettcap", "\x1bP0+r524742\x1b\\"},
-		{"xtgettcap", "\x1bP1+r544E=787465726D\x1b\\"},
-		{"decrpss", fmt.Sprintf("\x1bP1$r%d q\x1b\\", n(0, 9))},
-		{"xtversion", "\x1bP>|" + gen.Pick(rng, []string{"foot(1.17.2)", "kitty", "x", "WezTerm 2021"}) + "\x1b\\"},
-		{"da3", "\x1bP!|7E565445\x1b\\"},
-		{"da3", "\x1bP!|00000000\x1b\\"},
-		{"kittykbd", fmt.Sprintf("\x1b[?%du", n(0, 31))},
-		{"kittygfx", "\x1b_Gi=1;OK\x1b\\"},
-		{"apc", "\x1b_X\x1b\\"},
-		{"sixelgeom", fmt.Sprintf("\x1b[?2;%d;800;600S", n(0, 3))},
-		{"sixelgeom", "\x1b[?1;0;256S"},
-		{"theme", fmt.Sprintf("\x1b[?997;%dn", n(1, 2))},
-		{"dsr", "\x1b[?996;1n"},
+		{"da1", "\x1b[?62;4;22c", "capabilitySixel,primaryDeviceAttribute"},
+		{"da1", "\x1b[?62;22c", "primaryDeviceAttribute"},
+		{"da1", "\x1b[?1;2;4c", "capabilitySixel,primaryDeviceAttribute"},
+		{"decrpm", fmt.Sprintf("\x1b[?%d;%d$y", mode, val), decrpmAnn},
+		{"size8", fmt.Sprintf("\x1b[8;%d;%dt", n(1, 300), n(1, 500)), unless(bit(13), "textAreaChar")},
+		{"size4", fmt.Sprintf("\x1b[4;%d;%dt", n(1, 3000), n(1, 5000)), unless(bit(12), "textAreaPix")},
+		{"inband", fmt.Sprintf("\x1b[48;%d;%d;%d;%dt", n(1, 300), n(1, 500), n(0, 3000), n(0, 5000)), unless(bit(14), "inBandResizeEvents")},
+		{"osc4", fmt.Sprintf("\x1b]4;%d;rgb:%s/%s/%s\x1b\\", n(0, 255), hx4(), hx4(), hx4()), "capabilityOsc4"},
+		{"osc10", fmt.Sprintf("\x1b]10;rgb:%s/%s/%s\x1b\\", hx4(), hx4(), hx4()), "capabilityOsc10"},
+		{"osc11", fmt.Sprintf("\x1b]11;rgb:%s/%s/%s\x07", hx4(), hx4(), hx4()), "capabilityOsc11"},
+		{"osc52", "\x1b]52;c;" + gen.Pick(rng, []string{"aGVsbG8=", "", "5LiW55WM", "Zm9v", "YQ==", "!!!", "aGk"}) + "\x1b\\", "-"},
+		{"osc176", "\x1b]176;" + gen.Pick(rng, []string{"app", "", "foot", "a;b"}) + "\x1b\\", "?"},
+		{"xtgettcap", "\x1bP1+r524742=38\x1b\\", "truecolor"},
+		{"xtgettcap", "\x1bP1+r536D756C78=5C455B343A25703125646D\x1b\\", "styledUnderlines"},
+		// failure replies echo the name: they must not be read as an advertisement
+		{"xtgettcap", "\x1bP0+r524742\x1b\\", "-"},
+		{"xtgettcap", "\x1bP0+r536D756C78\x1b\\", "-"},
+		{"xtgettcap", "\x1bP0+r524742=38\x1b\\", "-"},
+		{"xtgettcap", "\x1bP1+r544E=787465726D\x1b\\", "-"},
+		{"decrpss", fmt.Sprintf("\x1bP1$r%d q\x1b\\", n(0, 9)), "-"},
+		{"xtversion", "\x1bP>|" + gen.Pick(rng, []string{"foot(1.17.2)", "kitty", "x", "WezTerm 2021"}) + "\x1b\\", "terminalID"},
+		{"da3", "\x1bP!|7E565445\x1b\\", "styledUnderlines"},
+		{"da3", "\x1bP!|00000000\x1b\\", "-"},
+		{"kittykbd", fmt.Sprintf("\x1b[?%du", n(0, 31)), "kittyKeyboard"},
+		{"kittygfx", "\x1b_Gi=1;OK\x1b\\", "kittyGraphics"},
+		{"apc", "\x1b_X\x1b\\", "-"},
+		{"sixelgeom", fmt.Sprintf("\x1b[?2;%d;800;600S", geomP), geomAnn},
+		{"sixelgeom", "\x1b[?1;0;256S", "-"},
+		{"theme", fmt.Sprintf("\x1b[?997;%dn", n(1, 2)), "-"},
+		{"dsr", "\x1b[?996;1n", "-"},
 	}
 }
 
@@ -108,13 +136,13 @@ func (h *H) replyShapes(rng *gen.Rng) []replyShape {
 func replyEnc(rs replyShape) string {
 	switch rs.name {
 	case "inband":
-		return "reply inband"
+		return "reply inband " + rs.ann
 	case "theme":
 		// mode is the second parameter
 		i := strings.Index(rs.bytes, ";")
 		return "reply theme " + strings.TrimSuffix(rs.bytes[i+1:], "n")
 	}
-	return "reply " + rs.name
+	return "reply " + rs.name + " " + rs.ann
 }
 
 func (h *H) mouseReport(rng *gen.Rng) report {
@@ -137,7 +165,7 @@ func (h *H) mouseReport(rng *gen.Rng) report {
 }
 
 // well-formed report stream
-func (h *H) wfStream(rng *gen.Rng, n int) ([]report, string) {
+func (h *H) wfStream(rng *gen.Rng, n int, mask uint32) ([]report, string) {
 	var reps []report
 	var sb strings.Builder
 	add := func(r report) {
@@ -178,7 +206,7 @@ func (h *H) wfStream(rng *gen.Rng, n int) ([]report, string) {
 			add(report{enc: "paste start", bytes: "\x1b[200~"})
 			inPaste = true
 		default:
-			shapes := h.replyShapes(rng)
+			shapes := h.replyShapes(rng, mask)
 			rs := gen.Pick(rng, shapes)
 			reps0 := 1
 			if rng.Chance(1, 3) {
@@ -208,7 +236,7 @@ func (h *H) wfStream(rng *gen.Rng, n int) ([]report, string) {
 }
 
 // garbage stream: anything
-func (h *H) garbage(rng *gen.Rng, n int) string {
+func (h *H) garbage(rng *gen.Rng, n int, mask uint32) string {
 	var sb strings.Builder
 	frag := []string{"\x1b[M", "\x1b[m", "\x1b[M !!", "\x1b[0;1;1M", "\x1b[<0;1M", "\x1b[<0;1;2;3M", "\x1b[<$0;1;2M", "\x1b[>0;1;2M", "\x1b[<;;M",
 		"\x1b[<35;1;1m", "\x1b[1;1R", "\x1b[5R", "\x1b[?c", "\x1b[c", "\x1b[?;4c", "\x1b[t", "\x1b[8t", "\x1b[8;1t", "\x1b[8;;t", "\x1b[48;1;2t",
@@ -228,7 +256,7 @@ func (h *H) garbage(rng *gen.Rng, n int) string {
 		case 1, 2:
 			sb.WriteString(gen.Pick(rng, frag))
 		case 3:
-			rs := gen.Pick(rng, h.replyShapes(rng))
+			rs := gen.Pick(rng, h.replyShapes(rng, mask))
 			b := rs.bytes
 			if rng.Bool() {
 				b = b[:rng.Range(0, len(b))]
@@ -279,14 +307,14 @@ func (h *H) genStream(i int) {
 		queue = rng.Range(1, 4)
 	}
 	if rng.Chance(3, 5) {
-		reps, data := h.wfStream(rng, rng.Range(1, 40))
+		reps, data := h.wfStream(rng, rng.Range(1, 40), mask)
 		if len(data) > 3000 {
 			return
 		}
 		h.streamCase(fmt.Sprintf("s%d", i), mask, queue, reps, true, data)
 		h.r.Count("stream-wf")
 	} else {
-		data := h.garbage(rng, rng.Range(1, 30))
+		data := h.garbage(rng, rng.Range(1, 30), mask)
 		if len(data) > 3000 {
 			data = data[:3000]
 		}
@@ -343,7 +371,7 @@ func (h *H) randSeq(rng *gen.Rng, wf bool) ansi.Sequence {
 		return ansi.CSI{Intermediate: im, Parameters: h.randParams(rng, wf), Final: gen.Pick(rng, finals)}
 	case 8:
 		// a reply shape as parsed
-		rs := gen.Pick(rng, h.replyShapes(rng))
+		rs := gen.Pick(rng, h.replyShapes(rng, 0))
 		seqs := inp.RefParse([]byte(rs.bytes))
 		if len(seqs) > 0 {
 			return seqs[0]
@@ -408,13 +436,14 @@ func (h *H) fixed() {
 	h.streamCase("fixed-F09-t", 0, 0, nil, false, "\x1b[0;1;1M")
 	// F10: unsolicited size reports once the capability is known
 	h.directCase("fixed-F10-d", all, []dop{{kind: "seq", seq: csi("", 't', p(8), p(24), p(80))}, {kind: "seq", seq: csi("", 't', p(8), p(24), p(80))}, {kind: "seq", seq: csi("", 't', p(8), p(25), p(81))}})
-	h.streamCase("fixed-F10-s", all, 0, []report{{enc: "reply size8"}, {enc: "reply size8"}, {enc: "reply size8"}}, true, "\x1b[8;24;80t\x1b[8;24;80t\x1b[8;24;80t")
+	h.streamCase("fixed-F10-s", all, 0, []report{{enc: "reply size8 -"}, {enc: "reply size8 -"}, {enc: "reply size8 -"}}, true, "\x1b[8;24;80t\x1b[8;24;80t\x1b[8;24;80t")
 	// F11: unsolicited OSC 4/10/11 replies once the capability is known
 	for _, o := range []string{"4;1;rgb:ffff/0000/0000", "10;rgb:1/2/3", "11;rgb:1/2/3"} {
 		osc := ansi.OSC{Payload: []rune(o)}
 		h.directCase("fixed-F11-d"+o[:2], all, []dop{{kind: "seq", seq: osc}, {kind: "seq", seq: osc}, {kind: "drain"}, {kind: "seq", seq: osc}})
 		nm := "osc" + strings.TrimSuffix(o[:2], ";")
-		h.streamCase("fixed-F11-s"+o[:2], all, 0, []report{{enc: "reply " + nm}, {enc: "reply " + nm}, {enc: "reply " + nm}}, true, strings.Repeat("\x1b]"+o+"\x1b\\", 3))
+		ann := "capabilityOsc" + strings.TrimSuffix(o[:2], ";")
+		h.streamCase("fixed-F11-s"+o[:2], all, 0, []report{{enc: "reply " + nm + " " + ann}, {enc: "reply " + nm + " " + ann}, {enc: "reply " + nm + " " + ann}}, true, strings.Repeat("\x1b]"+o+"\x1b\\", 3))
 	}
 	// F12 (direct approximation): request flag set, requester gone
 	h.directCase("fixed-F12-d", 0, []dop{{kind: "stub", arg: "0"}, {kind: "setreq", arg: "1"}, {kind: "seq", seq: csi("", 'R', p(3), p(7))}, {kind: "seq", seq: csi("", 'R', p(3), p(7))},
